@@ -43,3 +43,29 @@ func btoi(b bool) int {
 	}
 	return 0
 }
+
+func init() { vrt.Register("VerifC08RLEData", VerifC08RLEData) }
+
+// VerifC08RLEData: a well-formed RLE header (segment count and offsets as the
+// frame needs them) followed by arbitrary segment bytes: the PackBits decoder
+// itself on arbitrary control bytes (literal runs, repeat runs, the 0x80 no-op),
+// for 1 and 2 byte planes.
+func VerifC08RLEData() {
+	planes := vrt.Choice("planes", 1, 2)
+	info := &imagetypes.FrameInfo{Width: 2, Height: 2, BitsAllocated: uint16(8 * planes), BitsStored: uint16(8 * planes), HighBit: uint16(8*planes - 1), SamplesPerPixel: 1}
+	n := vrt.Param("data", 5)
+	data := make([]byte, 64)
+	data[0] = byte(planes)
+	data[4] = 64
+	split := n
+	if planes == 2 {
+		split = vrt.Choice("split", 1, n-1)
+		data[8] = byte(64 + split)
+	}
+	data = append(data, vrt.Bytes("d", n)...)
+	in := &vPD{info: info}
+	in.frames = append(in.frames, data)
+	out := &vPD{info: info}
+	err := NewRLECodec().Decode(in, out, nil)
+	vrt.Out("err", btoi(err != nil))
+}
